@@ -352,3 +352,24 @@ Proof.
   rewrite <- Heq. apply (F2 He e l' r' Hin). rewrite Heq. exact E.
 Qed.
 End Ready.
+
+(* the value: no per-state readiness hypothesis about index orders or recipes is left *)
+Theorem checked_history_value n tr pe nodes l r arr e0 :
+  2 <= NN n -> wf_net_b n = true ->
+  preA_trace_b n tr (init_state n) = true -> tail_ok_b tr = true ->
+  let s := extract n pe nodes (run n tr (init_state n)) in
+  nodes_ok_b (run n tr (init_state n)) nodes = true -> sorted_keys_b s = true -> preproc_complete_b n s = true ->
+  err s = false -> tree_of (tfuel s) (children s) (seq 0 (NN n)) = Some (Node l r) ->
+  forall e, agree_removed (sliced s) e0 e ->
+  srun_root n s arr e0 (Node l r) (map e (filter (fun j => negb (memb j (removed (sliced s)))) (output n)))
+  = einsum_spec n (sliced s) arr e.
+Proof.
+  intros HN Hwf Hpre Htail s Hnodes Hsorted Hpp He Ht.
+  assert (Hout : NoDup (output n)) by apply (wf_net_b_sound n Hwf).
+  apply state_value. apply (checked_history_ready n HN Hout tr pe nodes l r Hwf Hpre Htail Hnodes Hsorted Hpp He Ht).
+Qed.
+(* (B) read at one node: the cached equation is the canonical renaming of the cached index triple *)
+Theorem PB_equation_is_step s nd i l r e : PB s -> nget nd (info s) = Some i -> nget nd (children s) = Some (l, r) ->
+  i_eq i = Some e ->
+  exists li ri pi, rd i_inds s l = Some li /\ rd i_inds s r = Some ri /\ i_inds i = Some pi /\ e = einsum_eq_of li ri pi.
+Proof. intros HP Hi Hch He. destruct (HP nd i Hi l r Hch) as (_&B2&_). apply B2, He. Qed.
